@@ -82,7 +82,11 @@ func StallTrial(p *sut.Proc, idle time.Duration, n, size int) (out *StallOutcome
 	body := make([]byte, size)
 	start := time.Now()
 	sent := 0
-	w1.Timeout = 3 * time.Second
+	// (a write that times out in the middle of a frame breaks the harness's own
+	// connection: the bound must exceed the time the server may take to give up
+	// on the staller - the sender's wait on the staller's full queue plus the
+	// staller's own main loop's, each at most one idle timeout)
+	w1.Timeout = 3*idle + 4*time.Second
 	for i := 0; i < n; i++ {
 		if err := w1.Custom(body); err != nil {
 			break
